@@ -435,6 +435,20 @@ theorem ignored_element_no_effect (pre post : List (Json ν)) (x : Json ν) (h :
   have : rcList (x :: post) = rcList post := by simp [rcList, h]
   simp only [removeComments, rcList_append, this]
 
+/-- the ORDER of the two pre-passes of `main`: an ignored element (in particular an ignored PLATE) has no effect on what
+reaches the loader - it is removed before plates are expanded, so its clones never exist -/
+theorem ignored_before_plates (steps fuel : Nat) (pre post : List (Json ν)) (x : Json ν) (h : ignored x = true) :
+    preprocess steps fuel (.arr (pre ++ x :: post)) = preprocess steps fuel (.arr (pre ++ post)) := by
+  unfold preprocess
+  rw [ignored_element_no_effect pre post x h]
+
+/-- … and so has anything under an underscore key or an ignored value of a dict -/
+theorem commented_field_before_plates (steps fuel : Nat) (pre post : List (String × Json ν)) (k : String) (v : Json ν)
+    (h : underscore k = true ∨ ignored v = true) :
+    preprocess steps fuel (.obj (pre ++ (k, v) :: post)) = preprocess steps fuel (.obj (pre ++ post)) := by
+  unfold preprocess
+  rw [comment_key_no_effect pre post k v h]
+
 /-- … and the surrounding context does not matter: cleaning is a congruence -/
 theorem comments_congr_field (pre post : List (String × Json ν)) (k : String) (v v' : Json ν)
     (hi : ignored v' = ignored v) (h : removeComments v' = removeComments v) :
